@@ -13,7 +13,41 @@ import (
 )
 
 type Locker = sync.Locker
-type Pool = sync.Pool
+
+// Pool is a deterministic sync.Pool: one LIFO free list instead of per-P caches that the
+// garbage collector empties at times of its choosing, so that which object a Get returns is a
+// function of the schedule alone (and reuse is as eager as it can legally be). Put -> Get of
+// the same object is a happens-before edge, as with the real pool.
+type Pool struct {
+	New   func() interface{}
+	mu    sync.Mutex
+	items []interface{}
+}
+
+func (p *Pool) Get() interface{} {
+	kern.Yield("Pool.Get")
+	p.mu.Lock()
+	var x interface{}
+	if n := len(p.items); n > 0 {
+		x = p.items[n-1]
+		p.items = p.items[:n-1]
+	}
+	p.mu.Unlock()
+	if x == nil && p.New != nil {
+		x = p.New()
+	}
+	return x
+}
+
+func (p *Pool) Put(x interface{}) {
+	if x == nil {
+		return
+	}
+	kern.Yield("Pool.Put")
+	p.mu.Lock()
+	p.items = append(p.items, x)
+	p.mu.Unlock()
+}
 
 // ---- Map -------------------------------------------------------------------------
 
